@@ -1,6 +1,7 @@
 package main
 
 import (
+	"crypto/x509/pkix"
 	"math/big"
 	"bytes"
 	"crypto/x509"
@@ -85,6 +86,14 @@ func init() {
 // c03SignerCert: signer 0 is self-signed, signer 1 is issued by a CA (issuer differs from subject);
 // with a pad starting with "L" both are issued by the same CA (same issuer, different serials).
 func c03SignerCert(ki int, pad string) *x509.Certificate {
+	if strings.HasPrefix(pad, "S") {
+		// the certificate itself was signed with SHA-384
+		return mintCertAlg(rsaKey(2048, ki), pkix.Name{CommonName: fmt.Sprintf("image signer %d", ki) + pad}, big.NewInt(int64(300+ki)), x509.SHA384WithRSA)
+	}
+	if strings.HasPrefix(pad, "F") && ki == 0 {
+		// a certificate so large that the WIN_CERTIFICATE exceeds 64 KiB
+		return storeFatCert(rsaKey(2048, ki), simpleCert(rsaKey(2048, ki), "fallback", int64(300+ki)))
+	}
 	if strings.HasPrefix(pad, "U") {
 		// names as OpenSSL encodes them (UTF8String)
 		return mintCertRawName(rsaKey(2048, ki), utf8Name(fmt.Sprintf("image signer %d", ki)+pad, "Verif Org"), big.NewInt(int64(300+ki)))
@@ -120,6 +129,10 @@ func runC03(c *Ctx) {
 			cnPad = "L" + cnPad
 		} else if i%5 == 4 {
 			cnPad = "U" + cnPad
+		} else if i%7 == 3 {
+			cnPad = "S" + cnPad
+		} else if i == 1 || (!c.Quick() && i%50 == 1) {
+			cnPad = "F"
 		}
 		spec := smallPESpec(rng)
 		im := spec.build(rng)
